@@ -58,6 +58,7 @@ inductive TimerSt where
   | sleeping (due : Nat)
   | sending
   | dead          -- aborted or finished; its task has not been seen to end yet
+  | deadHolding   -- aborted while its send was in flight: the task still owns a strong sender until it is dropped
   | ended         -- the task ended
   deriving DecidableEq, Repr, Inhabited
 
@@ -163,7 +164,7 @@ def opHolds (w : Wiring) (x : Half) (r : OpRec) : Bool :=
 
 def timerHolds (w : Wiring) (x : Half) (t : Timer) : Bool :=
   match t.st with
-  | .sending => (w.holds .sender).contains x
+  | .sending | .deadHolding => (w.holds .sender).contains x
   | _ => false
 
 /-- Some owner keeps the closure `x` (`tx_fn` / `force_tx_fn`) alive. -/
@@ -181,7 +182,7 @@ def isWaitOp : OpKind → Bool
 /-- An in-flight waiting-path submission owns a clone of the mpsc sender. -/
 def inflight (s : AState) : Bool :=
   s.ops.any (fun r => isWaitOp r.kind && (match r.st with | .failed _ => false | _ => true))
-    || s.timers.any (fun t => t.st == .sending)
+    || s.timers.any (fun t => t.st == .sending || t.st == .deadHolding)
 
 /-- Some mpsc `Sender` exists: the channel is open from the sending side. -/
 def sendersAlive (w : Wiring) (s : AState) : Bool :=
@@ -213,7 +214,10 @@ def curSlot (s : AState) : List Nat :=
   | _ => []
 
 def killTimers (s : AState) : AState :=
-  { s with timers := s.timers.map (fun t => if t.st = .ended then t else { t with st := .dead }) }
+  { s with timers := s.timers.map (fun t =>
+      if t.st = .ended then t
+      else if t.st = .sending ∨ t.st = .deadHolding then { t with st := .deadHolding }
+      else { t with st := .dead }) }
 
 /-- The loop future is gone without `notify()`: failure of any kind. -/
 def fail (s : AState) : AState :=
@@ -610,7 +614,7 @@ def stepTimerEnd (w : Wiring) (s : AState) (t : Nat) : Option AState :=
   match s.findTimer t with
   | some x =>
     (match x.st with
-     | .dead => some (s.setTimer t .ended)
+     | .dead | .deadHolding => some (s.setTimer t .ended)
      | .sleeping _ =>
        if x.kind = .interval ∧ s.timerDue x ∧ !(s.reqOk w (w.upgradeReq .weakSender) && s.chan.rx) then
          some (s.setTimer t .ended)
